@@ -33,6 +33,8 @@ def op(o):
         return "OBlock (mkBlock %s %s) %s" % (cN(o["num"]), clist([ev(e) for e in o.get("events") or []]), fs)
     if k == "reorg":
         return "OReorg %s" % cN(o["b"])
+    if k == "prestate":
+        return "OPrestate %s %s %s" % (cN(o["n"]), cNhex(o["x"]), cN(o["num"]))
     if k == "drive":
         items = []
         for b in o.get("blocks") or []:
